@@ -21,6 +21,27 @@ fn typed_fill_op<G: Rng + ?Sized>(r: &mut Random<G>, op: &str) -> Option<R<Strin
 		r.fill_bytes(&mut b[..]);
 		return Some(Ok("b:".to_string()));
 	}
+	// `Random::next::<T>()` (StandardUniform) for the word-sized types: the same output format as the raw draws
+	match op {
+		"n32" => return Some(Ok(r.next::<u32>().to_string())),
+		"ni32" => return Some(Ok((r.next::<i32>() as u32).to_string())),
+		"n64" => return Some(Ok(r.next::<u64>().to_string())),
+		"ni64" => return Some(Ok((r.next::<i64>() as u64).to_string())),
+		"nsz" => return Some(Ok((r.next::<usize>() as u64).to_string())),
+		_ => {}
+	}
+	// distribution entry points inside a history (the words come from the generator's own paths, not from a script)
+	if let Some(p) = op.strip_prefix("chance:") {
+		let p: u64 = match p.parse() { Ok(p) => p, Err(_) => return Some(Err(Bad)) };
+		return Some(Ok(if r.chance(f64::from_bits(p)) { "1" } else { "0" }.to_string()));
+	}
+	if op == "f01" {
+		return Some(Ok(format!("z:{}", r.float01().to_bits())));
+	}
+	if let Some(n) = op.strip_prefix("idx:") {
+		let n: usize = match n.parse() { Ok(n) => n, Err(_) => return Some(Err(Bad)) };
+		return Some(Ok(r.index(n).to_string()));
+	}
 	if let Some(k) = op.strip_prefix("tfill:") {
 		let k: usize = match k.parse() { Ok(k) => k, Err(_) => return Some(Err(Bad)) };
 		let mut a = vec![0u32; k];
